@@ -57,6 +57,9 @@ def jobs(tier):
     # deep states reached by concrete prefixes, then a symbolic suffix
     for prefix, ac in (("stable", False), ("stable-hb", False), ("stable-commit-hb", True), ("rejoin-with-hb-pending", True)):
         out.append({"K": 5 if q else 6, "faults": 2, "leader": False, "stop": True, "prefix": prefix, "autocommit": ac})
+    # the member is assigned partitions of two topics
+    out.append({"K": 5 if q else 6, "faults": 1, "leader": False, "stop": True, "prefix": "stable-commit-hb", "autocommit": True, "two_topics": True})
+    out.append({"K": 5 if q else 6, "faults": 1, "leader": False, "stop": True, "two_topics": True})
     return out
 
 
